@@ -150,7 +150,9 @@ def main(argv):
         db = None
         if units is not None:
             import astfuncs
-            db = facts.extract(units, astfuncs.regex())
+            wit = {os.path.join(VERIF, w): os.path.join(facts.REPO, like)
+                   for w, like in getattr(mod, "WITNESS", {}).items()}
+            db = facts.extract(units, astfuncs.regex(), wit)
             db_info = {"units_parsed": len(db.units), "functions": db.nfuncs,
                        "records": len(db.records), "compile_db": db.route,
                        "tree_hash": facts.tree_hash(),
